@@ -1,7 +1,7 @@
 (* Property C14 - only statements, each closed by [exact]. *)
 From Coq Require Import NArith ZArith List Bool.
 Import ListNotations.
-Require Import UV.C14.Model UV.C14.Proofs UV.C14.Patch UV.C14.Pages UV.C14.Layout UV.C14.SizeOpt UV.C14.Detect.
+Require Import UV.C14.Model UV.C14.Proofs UV.C14.Patch UV.C14.Pages UV.C14.Layout UV.C14.SizeOpt UV.C14.Detect UV.C14.PreEntry UV.C14.Modules UV.C14.Exec.
 Local Open Scope N_scope.
 
 (* ---- which functions are selected ---- *)
@@ -33,6 +33,28 @@ Theorem C14_module_skip_sound : forall pl path so,
   forall O name, match_pattern_list O pl path so name = 0%Z.
 Proof. exact module_skip_sound. Qed.
 Print Assumptions C14_module_skip_sound.
+
+(* which modules are looked at: the main executable; libraries loaded at start-up only if some option
+   carries an '@'; a dlopen()ed library only if match_pattern_module accepts it.  A module that is NOT
+   looked at (and is not the main executable) contains no selected function, for any option string *)
+Theorem C14_unvisited_module_unselected : forall O k funcs def t lib so,
+  module_visited k funcs (parse_pattern_list O funcs def t) lib so = false ->
+  bytes_eqb def (basename lib) = false ->
+  (forall s, so = Some s -> bytes_eqb def s = false) ->
+  forall name, match_pattern_list O (parse_pattern_list O funcs def t) lib so name = 0%Z.
+Proof. exact unvisited_module_unselected. Qed.
+Print Assumptions C14_unvisited_module_unselected.
+
+(* the code as found (default module compared as a prefix): `-P plug` with executable "prog" selects
+   plug() of "prog_plugin.so", which is not looked at unless an unrelated option carries an '@' *)
+Theorem C14_default_module_prefix_legacy_refuted :
+  let pl := parse_pattern_list O1 n_plug n_prog PRegex in
+  module_visited MLoadLib n_plug pl n_plugin None = false
+  /\ bytes_eqb n_prog (basename n_plugin) = false
+  /\ match_pattern_list_legacy O1 pl n_plugin None n_plug = 1%Z
+  /\ match_pattern_list O1 pl n_plugin None n_plug = 0%Z.
+Proof. exact default_module_prefix_legacy_refuted. Qed.
+Print Assumptions C14_default_module_prefix_legacy_refuted.
 
 (* the string uftrace builds from -P/-U options (';'-joined, '!' for -U) parses back into one list
    element per option, in order, with the option's polarity, pattern and @module *)
@@ -241,6 +263,30 @@ Theorem C14_detect_endbr_refuted :
 Proof. exact detect_endbr_refuted. Qed.
 Print Assumptions C14_detect_endbr_refuted.
 
+(* ---- -fpatchable-function-entry=N,M: locations recorded in front of the function ---- *)
+(* a location is patched as a symbol-less site only if no symbol begins 1..4 bytes behind it *)
+Theorem C14_resolve_none_no_start : forall syms a,
+  resolve_target syms a = None ->
+  find_sym syms a = None
+  /\ forall k, In k [1; 2; 3; 4] -> forall t, find_sym syms (a + k) = Some t -> s_addr t <> a + k.
+Proof. exact resolve_none_no_start. Qed.
+Print Assumptions C14_resolve_none_no_start.
+
+(* otherwise it stands for the function that begins there (whose own entry bytes then decide) *)
+Theorem C14_resolve_pre_entry : forall syms a s,
+  find_sym syms a = None -> resolve_target syms a = Some s ->
+  exists k, In k [1; 2; 3; 4] /\ s_addr s = a + k.
+Proof. exact resolve_pre_entry. Qed.
+Print Assumptions C14_resolve_pre_entry.
+
+(* the code as found wrote the call over the location: with =5,2 the entry point ends up inside the call
+   instruction (entry bytes changed, not a call) - the traced program dies with SIGILL/SIGSEGV *)
+Theorem C14_pre_entry_legacy_refuted :
+  let m' := fst (patch_patchable_func_matched_legacy O0 pe_cfg [pe_sym] [0] (pe_mem52, stats0)) in
+  m' 2 <> pe_mem52 2 /\ rd m' 2 5 <> call_insn 4080 2 /\ rd m' 0 5 = call_insn 4080 0.
+Proof. exact pre_entry_legacy_refuted. Qed.
+Print Assumptions C14_pre_entry_legacy_refuted.
+
 (* the size gate is 6 bytes but a function with endbr64 needs 9: the patch of a 6-byte symbol can
    land in the next symbol, which is itself below the gate (needs NOPs spanning two symbols) *)
 Theorem C14_patch_inside_symbol_refuted :
@@ -248,6 +294,34 @@ Theorem C14_patch_inside_symbol_refuted :
   /\ fst (patch_func_matched O0 spill_cfg [spill_A; spill_B] [] (spill_mem, stats0)) 6 <> spill_mem 6.
 Proof. exact spill_refuted. Qed.
 Print Assumptions C14_patch_inside_symbol_refuted.
+
+(* ---- "the program still runs": executing a patched entry ---- *)
+(* In a three-instruction machine (5-byte NOP forms, call rel32, the trampoline's jmp *1(%rip), and
+   __fentry__ as an oracle step that returns to the address on top of the stack with everything else
+   preserved - property C01's subject): the original entry is one NOP ... *)
+Theorem C14_original_entry : forall m e fentry,
+  is_nop_sig (rd m e 5) = true -> fentry <> Z.of_N e ->
+  forall s0, st_rip s0 = Z.of_N e ->
+  step m fentry s0 = Some {| st_rip := (Z.of_N e + 5)%Z; st_rsp := st_rsp s0; st_stk := st_stk s0 |}.
+Proof. exact original_entry. Qed.
+Print Assumptions C14_original_entry.
+
+(* ... and the patched entry (memory after mcount_setup_trampoline + patch_fentry_code) reaches the same
+   address with the same stack pointer after call, jmp and the hook's return; the only stack slot that
+   differs is the one below the stack pointer (dead at a function entry) *)
+Theorem C14_patched_entry_equivalent : forall m e tramp fentry,
+  is_nop_sig (rd m e 5) = true ->
+  (0 <= tramp < 18446744073709551616)%Z ->
+  (-2147483648 <= tramp - (Z.of_N e + 5) < 2147483648)%Z ->
+  (Z.of_N e + 5 <= tramp)%Z ->
+  (0 <= fentry < 18446744073709551616)%Z ->
+  fentry <> Z.of_N e -> fentry <> tramp ->
+  forall s0, st_rip s0 = Z.of_N e ->
+  exists s3, steps 3 (patched m e tramp fentry) fentry s0 = Some s3
+             /\ st_rip s3 = (Z.of_N e + 5)%Z /\ st_rsp s3 = st_rsp s0
+             /\ forall a, a <> (st_rsp s0 - 8)%Z -> st_stk s3 a = st_stk s0 a.
+Proof. exact patched_entry. Qed.
+Print Assumptions C14_patched_entry_equivalent.
 
 (* ---- page permissions ---- *)
 Local Open Scope Z_scope.
